@@ -51,6 +51,13 @@ def specs_for(progs, sem, tier, rng):
                 specs.append(psrun.make_spec(p, s, {"kind": "random", "seed": rng.randrange(1 << 30), "penv": rng.choice([0.4, 0.8])},
                                              name="%s#%sr%d" % (p["name"], mode, k), vdr=mode, files=True,
                                              faults={rng.choice(jobs): "errors"}, restart=True, vdr_jitter=500))
+            # ... the outputs of a stage that does not split fail validation (a missing key): the
+            # job itself has completed, its outputs are rejected; after the restart it runs again
+            nosplit = [j["key"] for j in psprops.expected_jobs(s) if j["kind"] == "main" and not j["split"] and not j["ghost"]]
+            if nosplit:
+                specs.append(psrun.make_spec(p, s, {"kind": "random", "seed": rng.randrange(1 << 30), "penv": 0.6},
+                                             name="%s#%srv" % (p["name"], mode), vdr=mode, files=True,
+                                             faults={rng.choice(nosplit): "missing-key"}, restart=True, vdr_jitter=200))
             # ... and one in which it is the last job of the program that fails: everything
             # before it is complete and partly cleaned when the fresh runtime takes over
             if jobs:
